@@ -235,7 +235,7 @@ func (te *tokenEngine) errorReturn(ret *ssa.Return, path []ssa.Instruction) bool
 		if k == "errors.New" || k == "fmt.Errorf" || alwaysNonNil(c.Call.StaticCallee(), 0) {
 			return true
 		}
-		return false
+		// the error result of some other call: an error return only if this path found it non-nil
 	}
 	if _, ok := ev.(*ssa.MakeInterface); ok {
 		return true
